@@ -92,6 +92,7 @@ def run_job(mod, job, level, seed=0, timeout_ms=10000, deadline=None, canary=Fal
     stats = Stats()
     viols = []
     samples = []
+    xchecks = []
     structures = 0
     truncated = 0
     unknown_labels = []
@@ -104,6 +105,8 @@ def run_job(mod, job, level, seed=0, timeout_ms=10000, deadline=None, canary=Fal
         structures += 1
         g = Engine(timeout_ms=timeout_ms, seed=seed, deadline=deadline,
                    max_paths=level.get('max_paths_per_structure'))
+        if len(xchecks) < 2 and _W.get('xcheck', True):
+            g.xcheck_left = 1
 
         def fn(g, item=item):
             if canary:
@@ -114,6 +117,7 @@ def run_job(mod, job, level, seed=0, timeout_ms=10000, deadline=None, canary=Fal
         if not done:
             truncated += 1
         stats.merge(g.stats.as_dict())
+        xchecks.extend(g.xchecks)
         unknown_labels.extend(g.unknown_labels[:3])
         if len(samples) < 2 and g.samples:
             samples.append({'structure': _short(item), 'path': g.samples[0]})
@@ -128,7 +132,7 @@ def run_job(mod, job, level, seed=0, timeout_ms=10000, deadline=None, canary=Fal
         if len(viols) >= max_viol:
             truncated += 1
             break
-    return {'stats': stats.as_dict(), 'violations': viols, 'samples': samples,
+    return {'stats': stats.as_dict(), 'violations': viols, 'samples': samples, 'xchecks': xchecks[:2],
             'structures': structures, 'truncated': truncated, 'unknown_labels': unknown_labels[:5]}
 
 
@@ -177,6 +181,44 @@ def _work(args):
 def _short(x, n=600):
     s = json.dumps(x, default=str)
     return x if len(s) <= n else s[:n] + '...'
+
+
+def cross_check(queries):
+    """re-decide z3 'unsat' answers with the cvc5 binary; unknown/timeout is reported, not counted as agreement"""
+    import shutil
+    import tempfile
+    rep = {'solver': 'cvc5 binary', 'queries': len(queries), 'agree_unsat': 0, 'disagree': 0, 'unknown': 0,
+           'errors': 0, 'wall_s': 0.0, 'examples': []}
+    exe = shutil.which('cvc5')
+    if not exe or not queries:
+        rep['solver'] = 'cvc5 not found' if not exe else rep['solver']
+        return rep
+    t0 = time.time()
+    d = tempfile.mkdtemp(prefix='vfx-')
+    try:
+        for i, (label, text) in enumerate(queries):
+            path = os.path.join(d, 'q%d.smt2' % i)
+            with open(path, 'w') as fh:
+                fh.write('(set-logic ALL)\n' + text)
+            try:
+                p = subprocess.run([exe, '--tlimit=10000', path], capture_output=True, text=True, timeout=20)
+                out = (p.stdout + p.stderr).strip()
+            except subprocess.TimeoutExpired:
+                out = 'timeout'
+            first = out.split('\n')[0] if out else ''
+            if '(error' in out:
+                rep['errors'] += 1
+            elif first == 'unsat':
+                rep['agree_unsat'] += 1
+            elif first == 'sat':
+                rep['disagree'] += 1
+                rep['examples'].append(label)
+            else:
+                rep['unknown'] += 1
+    finally:
+        shutil.rmtree(d, ignore_errors=True)
+    rep['wall_s'] = round(time.time() - t0, 2)
+    return rep
 
 
 # ----------------------------------------------------------------------- known findings
@@ -267,6 +309,8 @@ def run_check(modname, tier, seed):
         canary_n = len(r['violations'])
 
     total = Stats()
+    xqueries = []
+    xmax = int(os.environ.get('VERIF_XCHECK', 300 if tier == 'thorough' else 40))
     funcs = set(cov.seen)
     all_viol = []
     samples = []
@@ -300,6 +344,8 @@ def run_check(modname, tier, seed):
                 for s in r['samples']:
                     if len(samples) < 3:
                         samples.append(s)
+                if len(xqueries) < xmax:
+                    xqueries.extend(r.get('xchecks', [])[:xmax - len(xqueries)])
                 all_viol.extend(r['violations'])
         total.merge(lv_stats.as_dict())
         exhaustive = truncated == 0 and not errors and lv_stats.unknown == 0
@@ -313,6 +359,12 @@ def run_check(modname, tier, seed):
         if not exhaustive:
             print('INCONCLUSIVE level=%s truncated=%d unknown=%d errors=%d' % (
                 level['name'], truncated, lv_stats.unknown, len(errors)))
+
+    # ---- second solver: a sample of discharged obligations is re-decided by the cvc5 binary
+    xreport = cross_check(xqueries)
+    if xreport['disagree']:
+        errors.append({'error': 'cvc5 disagrees with z3 on %d discharged obligations: %s' % (
+            xreport['disagree'], xreport['examples'][:2])})
 
     # ---- optional property-specific extra stage (e.g. C07's hash-seed re-execution)
     post_report = None
@@ -436,6 +488,7 @@ def run_check(modname, tier, seed):
             'unknown_labels': unknown_labels[:10],
             'procs': nproc,
             'post_stage': post_report,
+            'cross_solver': xreport,
         },
         'assumptions': getattr(mod, 'ASSUMPTIONS', []),
         'wall_s': round(wall, 2),
